@@ -85,18 +85,21 @@ GEN_DEPENDS = {
 
 # extra property modules per property: (module under Garnish.Props, namespace to list, regex on the short name or None)
 AUDIT_EXTRA = {
-    'C01': [('C01Compile', 'Garnish.Props.C01', None), ('C01Build', 'Garnish.Props.C01Build', None), ('C01Source', 'Garnish.Props.C01Source', None), ('C02Numbered', 'Garnish.Props.C02Numbered', r'^C01_'), ('C01Text', 'Garnish.Props.C01Text', None)],
-    'C06': [('C06Static', 'Garnish.Props.C06', None)],
-    'C10': [('C01Compile', 'Garnish.Props.C01', r'^(C10_|C01_compile_correct$)'), ('C10Compile', 'Garnish.Props.C10', None)],
-    'C17': [('C01Compile', 'Garnish.Props.C01', r'^(C17_|C01_compile_correct$|compile_env$)')],
+    'C01': [('C01Compile', 'Garnish.Props.C01', None), ('C01Build', 'Garnish.Props.C01Build', None), ('C01Source', 'Garnish.Props.C01Source', None), ('C02Numbered', 'Garnish.Props.C02Numbered', r'^C01_'), ('C01Text', 'Garnish.Props.C01Text', None), ('C01Blocks', 'Garnish.Props.C01Blocks', None)],
+    'C06': [('C06Static', 'Garnish.Props.C06', None), ('RuntimeRefineData', 'Garnish.Props.RuntimeRefine', r'^C06_')],
+    'C10': [('C01Compile', 'Garnish.Props.C01', r'^(C10_|C01_compile_correct$)'), ('C10Compile', 'Garnish.Props.C10', None), ('RuntimeRefineLogic', 'Garnish.Props.RuntimeRefine', r'^C10_')],
+    'C17': [('C01Compile', 'Garnish.Props.C01', r'^(C17_|C01_compile_correct$|compile_env$)'), ('RuntimeRefineAccess', 'Garnish.Props.RuntimeRefine', r'^C17_'), ('RuntimeRefineApply', 'Garnish.Props.RuntimeRefine', r'^C17_')],
     'C11': [('C11Refine', 'Garnish.Props.C11Refine', None)],
-    'C18': [('C18Lex', 'Garnish.Props.C18Lex', None), ('C18Parse', 'Garnish.Props.C18Parse', None), ('C02Parse', 'Garnish.Props.C02Parse', r'^C18_')],
+    'C18': [('C18Lex', 'Garnish.Props.C18Lex', None), ('C18Parse', 'Garnish.Props.C18Parse', None), ('C02Parse', 'Garnish.Props.C02Parse', r'^C18_'), ('C18Text', 'Garnish.Props.C18Text', None)],
     'C02': [('C02Parse', 'Garnish.Props.C02Parse', r'^C02_'), ('C02Numbered', 'Garnish.Props.C02Numbered', r'^C02_'), ('C02Frag10', 'Garnish.Props.C02Frag10', None)],
-    'C04': [('C02Parse', 'Garnish.Props.C02Parse', r'^C04_'), ('C04Build', 'Garnish.Props.C04Build', None)],
+    'C04': [('C02Parse', 'Garnish.Props.C02Parse', r'^C04_'), ('C04Build', 'Garnish.Props.C04Build', None), ('C04Order', 'Garnish.Props.C04Order', None), ('C04Eval', 'Garnish.Props.C04Order', None), ('C04OrderEx', 'Garnish.Props.C04Order', None), ('C04Source', 'Garnish.Props.C04Source', None)],
     'C03': [('C03Lex', 'Garnish.Props.C03Lex', None)],
     'C20': [('C20Compile', 'Garnish.Props.C20', None)],
-    'C08': [('C08Casts', 'Garnish.Props.C08Casts', r'^cast_')],
-    'C07': [('C08Casts', 'Garnish.Props.C08Casts', r'^C07_'), ('C07Access', 'Garnish.Props.C07Access', None)],
+    'C08': [('C08Casts', 'Garnish.Props.C08Casts', r'^cast_'), ('RuntimeRefineArith', 'Garnish.Props.RuntimeRefine', r'^C08_'), ('RuntimeRefineData', 'Garnish.Props.RuntimeRefine', r'^C08_'), ('RuntimeRefineAccess', 'Garnish.Props.RuntimeRefine', r'^C08_'), ('RuntimeRefineApply', 'Garnish.Props.RuntimeRefine', r'^C08_')],
+    'C09': [('RuntimeRefineArith', 'Garnish.Props.RuntimeRefine', r'^C09_')],
+    'C12': [('RuntimeRefineCompare', 'Garnish.Props.RuntimeRefine', r'^C12_')],
+    'C16': [('RuntimeRefineAccess', 'Garnish.Props.RuntimeRefine', r'^C16_'), ('RuntimeRefineConcat', 'Garnish.Props.RuntimeRefine', r'^C16_'), ('RuntimeRefineMakeList', 'Garnish.Props.RuntimeRefine', r'^C16_')],
+    'C07': [('C08Casts', 'Garnish.Props.C08Casts', r'^C07_'), ('C07Access', 'Garnish.Props.C07Access', None), ('C07Reach', 'Garnish.Props.C07Reach', r'^(C07_|run_|accessSafe_|wf_implies|toAccessHeap_)')],
 }
 
 
